@@ -72,8 +72,8 @@ CLAIMED["C11"] = dict(engine="E1", category="exploration", design_ref="DESIGN.md
 ENGINES[0]["serves_properties"] += ["C03"]
 CLAIMED["C03"] = dict(engine="E1", category="exploration", design_ref="DESIGN.md section 3, C03",
     technique="bounded-exhaustive enumeration of all scene sequences over an island-archetype alphabet x all finder modes, row invariants + flood-fill island oracle, and run histories",
-    text="ALL sequences of length 1..2 (quick) / 1..3 (thorough, every third 3-sequence) over nine island archetypes (point, extended, 2/3-component blends, 1-pixel and few-pixel islands, negative, edge, NaN block) x {blind, blind+island, priorized stage 1-3 x regroup on/off}, plus blank / NaN images and 49- and 196-source grids (> 20 priorized groups): every row of every catalogue is checked (unique labels and uuids, numbering, shape/angle/coordinate ranges, flag bits, error values, sexagesimal strings, int_flux relation), island rows against an independent flood fill and WCS model, and run histories (fresh objects, same object, fresh processes with other hash seeds) must reproduce the catalogue.",
-    note="Forced rms/background; rotation-free WCS; 3-sequences sub-sampled deterministically (one third) in thorough.")
+    text="ALL sequences of length 1..2 (quick) / 1..3 (thorough, all 729 3-sequences) over nine island archetypes (point, extended, 2/3-component blends, 1-pixel and few-pixel islands, negative, edge, NaN block) x {blind, blind+island, priorized stage 1-3 x regroup on/off}, plus blank / NaN images and 49- and 196-source grids (> 20 priorized groups): every row of every catalogue is checked (unique labels and uuids, numbering, shape/angle/coordinate ranges, flag bits, error values, sexagesimal strings, int_flux relation), island rows against an independent flood fill and WCS model, and run histories (fresh objects, same object, fresh processes with other hash seeds) must reproduce the catalogue.",
+    note="Forced rms/background in the sequence sweep (files and internal estimates in the other clauses); rotation-free WCS apart from the listed header kinds.")
 ENGINES[0]["serves_properties"] += ["C05", "C18"]
 CLAIMED["C05"] = dict(engine="E1", category="exploration", design_ref="DESIGN.md section 3, C05",
     technique="bounded-exhaustive enumeration of a catalogue lattice (size ladder x sub-pixel phase x stage x regroup x ratio, all row permutations, bad rows at every position, psf-less catalogues) on an image rendered from the catalogue by an independent model",
@@ -113,7 +113,7 @@ CLAIMED["C04"]["text"] += " Pairs and n = 3, 4 sets that SHARE theta / theta + s
 CLAIMED["C05"]["text"] += " With regrouping off the blend is also labelled as one island by the input and run under all row permutations against the truth; unusable rows inside a fitting group under all orders; five-source permutations (thorough)."
 CLAIMED["C06"]["text"] += " Scale factors 2^-24 and 2^-34; an archetype with bright compact sources; the BANE command line (--grid --box --cores --stripes --compress --noclobber) against the API."
 CLAIMED["C07"]["text"] += " Stripe-count clause also on non-square grid/box pairs over a ramp; the simulated pool enforces multiprocessing.Pool's state rules (join before close raises)."
-CLAIMED["C08"]["technique"] = "explicit-state BFS over all operation histories (33-operation alphabet incl. union without renormalisation; depth 4 quick / 6 thorough from the empty state, one less from a populated once-queried state) of real Region objects with a HEALPix set model as oracle"
+CLAIMED["C08"]["technique"] = "explicit-state BFS over all operation histories (33-operation alphabet incl. union without renormalisation; depth 4 quick / 5 thorough from the empty state, one less from a populated once-queried state) of real Region objects with a HEALPix set model as oracle"
 CLAIMED["C08"]["text"] = CLAIMED["C08"]["text"].replace("All histories over a 30-operation alphabet (", "All histories over a 33-operation alphabet (union(renorm=False) onto a coarser, equal and finer operand - single representation and area are not judged while normalisation is deferred - ")
 CLAIMED["C08"]["text"] += " The same search is run from a populated state (six operations in, one register queried). MIMAS command line (+c -c +p -p -depth -o, 32 argument sets) against the set model."
 CLAIMED["C10"]["text"] += " Blank pixels already present (different in every plane) must stay and not spread; double-precision images whose values do not fit single precision; regions around a single undefined coordinate (RA 0, Dec 0, poles, origin); MIMAS command line --maskimage / --maskcat / --negate."
